@@ -61,6 +61,17 @@ class CoopLock(object):
         assert self.owner is not None
         self.owner = None
 
+    # used by code that runs atomically (not rewritten: dunders, user-supplied bodies calling into the framework)
+    def __enter__(self):
+        if self.owner is not None:
+            raise RuntimeError('an atomic section would have to block on a model lock')
+        self.owner = SCHED.current if SCHED else 'atomic'
+        return self
+
+    def __exit__(self, *a):
+        self.owner = None
+        return False
+
 
 def _coop_with_enter(cm):
     if isinstance(cm, CoopLock):
